@@ -36,6 +36,9 @@ structure Pert where
   dc : Float
   mode : Nat
   dns : Int := 0      -- offset added to every float→int64 conversion (a guess moved by 1ns)
+  qbits : Nat := 0    -- evaluate sin/cos at the argument with its lowest `qbits` bits cleared
+                      -- (neighbouring arguments may give one result in Go and two in libm, or vice versa)
+  rbits : Nat := 0    -- clear the lowest `rbits` bits of every sin/cos result (same purpose)
 
 def Pert.sign (q : Pert) (x : Float) : Float :=
   match q.mode with
@@ -44,6 +47,14 @@ def Pert.sign (q : Pert) (x : Float) : Float :=
     -- pseudo-random factor in {-1, -1/2, 0, 1/2, 1} per argument and mode
     let h := (x.toBits.toNat * ((2 * m + 1) * 0x9E3779B97F4A7C15) % 18446744073709551616) / 1099511627776
     (Float.ofNat (h % 5) - 2.0) / 2.0
+
+def clearBits (k : Nat) (x : Float) : Float :=
+  if k == 0 then x else Float.ofBits ((x.toBits.toNat / 2 ^ k) * 2 ^ k).toUInt64
+
+def Pert.arg (q : Pert) (x : Float) : Float :=
+  if q.qbits == 0 then x else
+  let b := x.toBits.toNat
+  Float.ofBits ((b / 2 ^ q.qbits) * 2 ^ q.qbits).toUInt64
 
 /-- native instance; `q`: perturbation of sin / cos (zero for the plain model). -/
 def nativeOps (q : Pert) : FloatOps Float where
@@ -58,8 +69,8 @@ def nativeOps (q : Pert) : FloatOps Float where
   abs := Float.abs
   round := Float.round
   ceil := Float.ceil
-  sin := fun x => let s := Float.sin x; s + q.sign x * q.ds * (Float.abs s + 1.0e-3)
-  cos := fun x => let c := Float.cos x; c + q.sign x * q.dc * (Float.abs c + 1.0e-3)
+  sin := fun x => let s := clearBits q.rbits (Float.sin (q.arg x)); s + q.sign x * q.ds * (Float.abs s + 1.0e-3)
+  cos := fun x => let c := clearBits q.rbits (Float.cos (q.arg x)); c + q.sign x * q.dc * (Float.abs c + 1.0e-3)
   sq := fun x => x * x
   toInt64 := fun x => goToInt64 x + q.dns
   toUInt64 := goToUInt64
@@ -71,7 +82,7 @@ def nativeOps (q : Pert) : FloatOps Float where
   e9 := 1.0e9
   em3 := 1.0e-3
 
-def plain : FloatOps Float := nativeOps ⟨0.0, 0.0, 0, 0⟩
+def plain : FloatOps Float := nativeOps ⟨0.0, 0.0, 0, 0, 0, 0⟩
 
 def showPace : PaceOut → String
   | .wait d => "ok wait " ++ toString d
@@ -109,7 +120,7 @@ def showLoop (tr : List (Int × Nat)) (e : Nat) : String :=
 def eps : Float := 8.8817841970012523e-16   -- 2^-50
 
 /-- Is the sine result sensitive to a few-ulp change of sin/cos?  Compares the plain run with
-twelve perturbed runs (and two runs with every guess moved by ±1ns): a different exit, or a wait differing by more than `max(1ns, 5e-10·|w|)`. -/
+twelve perturbed runs, seven runs with sin/cos arguments or results coarsened by a few bits (and two runs with every guess moved by ±1ns): a different exit, or a wait differing by more than `max(1ns, 5e-10·|w|)`. -/
 def sineIll (p : SineP Float) (t : Int) (hits : Nat) : Bool :=
   let r0 := sinePaceX plain p t hits
   let differs (r : PaceOut × SineExit) : Bool :=
@@ -134,9 +145,11 @@ def sineIll (p : SineP Float) (t : Int) (hits : Nat) : Bool :=
   [(eps, eps, 0), (-eps, -eps, 0), (eps, -eps, 0), (-eps, eps, 0),
    (eps, eps, 1), (eps, eps, 2), (eps, eps, 3), (eps, eps, 4), (eps, eps, 5), (eps, eps, 6),
    (eps, eps, 7), (eps, eps, 8)].any (fun (a, b, m) =>
-    differs (sinePaceX (nativeOps ⟨a, b, m, 0⟩) p t hits))
-  || differs1 (sinePaceX (nativeOps ⟨0.0, 0.0, 0, 1⟩) p t hits)
-  || differs1 (sinePaceX (nativeOps ⟨0.0, 0.0, 0, -1⟩) p t hits)
+    differs (sinePaceX (nativeOps ⟨a, b, m, 0, 0, 0⟩) p t hits))
+  || [1, 2, 3, 8].any (fun k => differs (sinePaceX (nativeOps ⟨0.0, 0.0, 0, 0, k, 0⟩) p t hits))
+  || [1, 2, 3].any (fun k => differs (sinePaceX (nativeOps ⟨0.0, 0.0, 0, 0, 0, k⟩) p t hits))
+  || differs1 (sinePaceX (nativeOps ⟨0.0, 0.0, 0, 1, 0, 0⟩) p t hits)
+  || differs1 (sinePaceX (nativeOps ⟨0.0, 0.0, 0, -1, 0, 0⟩) p t hits)
 
 def handle (op : String) (args : List String) : Option String :=
   match op with
